@@ -9,7 +9,14 @@ func Decompress(a []byte) *PublicKey {
 	var aa, xx, xx3 sm2P256FieldElement
 
 	P256Sm2()
+	if len(a) != 33 || a[0] > 1 {
+		// not an encoding produced by Compress: parity byte followed by the 32-byte x coordinate
+		return nil
+	}
 	x := new(big.Int).SetBytes(a[1:])
+	if x.Cmp(sm2P256.P) >= 0 {
+		return nil
+	}
 	curve := sm2P256
 	sm2P256FromBig(&xx, x)
 	sm2P256Square(&xx3, &xx)       // x3 = x ^ 2
@@ -20,6 +27,10 @@ func Decompress(a []byte) *PublicKey {
 
 	y2 := sm2P256ToBig(&xx3)
 	y := new(big.Int).ModSqrt(y2, sm2P256.P)
+	if y == nil {
+		// x^3 + ax + b is not a square: no curve point has this x coordinate
+		return nil
+	}
 	if getLastBit(y) != uint(a[0]) {
 		y.Sub(sm2P256.P, y)
 	}
